@@ -285,7 +285,9 @@ def stepPkg (line : String) : String :=
                 | none => true     -- no dataflow was run: the summary is the bail-out default
                 | some sol =>
                   let summ := mkSumm p byName valOf
-                  wfFunc p.F && checkPost p.F summ sol && (retNilness p.F summ sol == model)
+                  let ret := retNilness p.F summ sol
+                  wfFunc p.F && checkPost p.F summ sol && ret.length == model.length &&
+                    (List.range model.length).all (fun j => leVN (ret.getD j VN.bot) (model.getD j VN.top))
               let status := if p.F.hasBlocks && p.F.analysed && !(wfFunc p.F) then "wf" else "ok"
               s!"F {p.name} {status} real={showVNs real} model={showVNs shown} cert={showBool cert}")
     " | ".intercalate (pkg :: outs)
